@@ -35,6 +35,8 @@ def init_forms(r, R, C, maxv, trough):
     else:
         out.append({"form": "flat", "vals": [vol() for _ in range(n)], "nd": r.random() < 0.5})
         out.append({"form": "2d", "vals": [vol() for _ in range(n)], "ncols": C})
+        # a table without any symmetry (row-major numbering): orientation mistakes show on square plates too
+        out.append({"form": "2d", "vals": [i % (maxv + 1) for i in range(n)], "ncols": C})
         out.append({"form": "flat", "vals": [vol() for _ in range(n + 1)]})  # wrong size
         if n > 1:
             out.append({"form": "2d", "vals": [vol() for _ in range(n - C if n > C else n + C)], "ncols": C})  # wrong number of rows
@@ -108,7 +110,7 @@ def cases(tier, r):
         ps.append({"x": "ctor", "kind": "labware", "rows": I(2), "cols": I(3), "vrows": NOVR, "minv": mn, "maxv": mx, "init": {"form": "none"}, "tag": "limits"})
         ps.append({"x": "ctor", "kind": "trough", "rows": I(1), "cols": I(2), "vrows": VR(I(4)), "minv": mn, "maxv": mx, "init": {"form": "none"}, "tag": "limits"})
     # geometries x initial volume forms x names
-    geoms = [(1, 1), (1, 4), (3, 1), (2, 3), (4, 6), (8, 12), (26, 2)] + [(r.randint(1, 26), r.randint(1, 30)) for _ in range(3 if q else 40)]
+    geoms = [(1, 1), (1, 4), (3, 1), (2, 3), (4, 6), (8, 12), (26, 2), (2, 2), (3, 3), (8, 8), (3, 2)] + [(r.randint(1, 26), r.randint(1, 30)) for _ in range(3 if q else 40)]
     if not q:
         geoms += [(16, 24), (26, 120), (40, 3)]
     for (R, C) in geoms:
